@@ -96,6 +96,7 @@ impl rustc_driver::Callbacks for Cb {
         let is_test = tcx.sess.opts.test;
         let fns = mirdump::dump_all(tcx);
         let hir = hirdump::dump_all(tcx);
+        let consts = hirdump::dump_consts(tcx);
         let (adts, statics) = tydump::dump_all(tcx);
         let root = J::O(vec![
             ("crate", s(&krate)),
@@ -103,6 +104,7 @@ impl rustc_driver::Callbacks for Cb {
             ("is_test", J::B(is_test)),
             ("fns", J::A(fns)),
             ("hir", J::A(hir)),
+            ("consts", J::A(consts)),
             ("adts", J::A(adts)),
             ("statics", J::A(statics)),
         ]);
